@@ -149,6 +149,14 @@ def run(pid, tier):
     e = first('estimate')
     c = copy.deepcopy(e); c['act']['estimates'][0]['inRange'] = False; cans.append((c, 'EstimateInRange'))
     c = copy.deepcopy(e); c['act']['estimates'][1]['estK'] += 500; cans.append((c, 'EstimateAsModel'))
+    px = first('proximity', lambda r: r['act']['firedBest'])
+    c = copy.deepcopy(px); c['act']['firedBest'] = False; cans.append((c, 'ProximityAsDefined'))
+    cp = first('composite', lambda r: len(r['case']['limits']) >= 2)
+    c = copy.deepcopy(cp); c['act']['estimates'][2]['fires'] = not c['act']['estimates'][2]['fires']; cans.append((c, 'CompositeAsModel'))
+    c = copy.deepcopy(cp); c['act']['estimates'][1]['inRange'] = False; cans.append((c, 'CompositeAsModel'))
+    mt = first('maxtime', lambda r: r['act']['waited'])
+    c = copy.deepcopy(mt); c['act']['firedAfter'] = False; cans.append((c, 'MaxTimeEstimateSane'))
+    c = copy.deepcopy(mt); c['act']['inRange'] = False; cans.append((c, 'MaxTimeEstimateSane'))
     y = first('dyn')
     c = copy.deepcopy(y); c['act']['picksInRange'] = False; cans.append((c, 'SelectorPicksConfigured'))
     c = copy.deepcopy(y); c['act']['rewardsFinite'] = False; cans.append((c, 'RewardsFinite'))
